@@ -105,8 +105,15 @@ def strategy(tier):
 def run(case, ctx):
     p = case["path"]
     sig = case.get("sig", 4)
+    loud_short = False
     if sig != 4:
-        p = [[l, False] for l, _ in p]
+        if all(l == "child" for l, _ in p) and any(fl for _, fl in p):
+            # Instance-only path with '.' links: a link change is mapped to its effect on the final attribute (documented),
+            # so calls during link operations are not judged - only which objects the handler still follows
+            loud_short = True
+            ctx.label("short-handler-signature-dotted")
+        else:
+            p = [[l, False] for l, _ in p]
         ctx.label("short-handler-signature")
     otc_name, obs_name = names(p)
     created = []
@@ -130,6 +137,15 @@ def run(case, ctx):
         return n
     root = fresh()
     A, B = [], []
+    from traits.api import push_exception_handler as _push, pop_exception_handler as _pop
+    _push(handler=lambda *a: None, reraise_exceptions=False, main=True)
+    try:
+        return _run_body(case, ctx, p, sig, loud_short, otc_name, obs_name, created, fresh, root, A, B, eqn)
+    finally:
+        _pop()
+
+
+def _run_body(case, ctx, p, sig, loud_short, otc_name, obs_name, created, fresh, root, A, B, eqn):
 
     if sig == 4:
         def h_otc(obj, name, old, new):
@@ -238,7 +254,7 @@ def run(case, ctx):
         elif k == "set_group":
             n.group = {fresh() for _ in range(op[2])}
             link = "group"
-        if sig != 4 and A:
+        if sig != 4 and A and not loud_short:
             ctx.fail("links/quiet-link-reported", "%r: %r on %r (all links quiet) called the %d-argument legacy handler: %r"
                      % (otc_name, op, n, sig, A))
         if link is not None and sig != 4:
